@@ -1,0 +1,67 @@
+//go:build verif
+
+package proto
+
+import (
+	. "github.com/protolambda/zrnt/eth2/forkchoice"
+)
+
+// Read-only views of the proto-array and vote store for the correspondence harness in /verif.
+// Nothing here is compiled without the `verif` build tag; nothing here mutates the structures.
+
+type VerifArrayDump struct {
+	SinkNil            bool
+	IndexOffset        NodeIndex
+	JustifiedEpoch     Epoch
+	FinalizedEpoch     Epoch
+	Nodes              []ProtoNode
+	Indices            map[NodeRef]NodeIndex
+	BlockSlots         map[Root]Slot
+	UpdatedConnections bool
+}
+
+// VerifDumpArray copies the node table, the offset and both maps.
+func VerifDumpArray(g ForkchoiceGraph) (d VerifArrayDump, ok bool) {
+	pr, ok := g.(*ProtoArray)
+	if !ok || pr == nil {
+		return VerifArrayDump{}, false
+	}
+	d.SinkNil = pr.sink == nil
+	d.IndexOffset = pr.indexOffset
+	d.JustifiedEpoch = pr.justifiedEpoch
+	d.FinalizedEpoch = pr.finalizedEpoch
+	d.Nodes = make([]ProtoNode, len(pr.nodes))
+	copy(d.Nodes, pr.nodes)
+	d.Indices = make(map[NodeRef]NodeIndex, len(pr.indices))
+	for k, v := range pr.indices {
+		d.Indices[k] = v
+	}
+	d.BlockSlots = make(map[Root]Slot, len(pr.blockSlots))
+	for k, v := range pr.blockSlots {
+		d.BlockSlots[k] = v
+	}
+	d.UpdatedConnections = pr.updatedConnections
+	return d, true
+}
+
+// VerifDumpVotes copies the vote trackers.
+func VerifDumpVotes(v VoteStore) (votes []VoteTracker, changed bool, ok bool) {
+	st, ok := v.(*ProtoVoteStore)
+	if !ok || st == nil {
+		return nil, false, false
+	}
+	votes = make([]VoteTracker, len(st.votes))
+	copy(votes, st.votes)
+	return votes, st.changed, true
+}
+
+// VerifGetNode runs the unexported bounds-checked accessor on an arbitrary index (read-only):
+// reports whether it returned a node, an error, or panicked is left to the caller's recover.
+func VerifGetNode(g ForkchoiceGraph, index NodeIndex) (found bool) {
+	pr, ok := g.(*ProtoArray)
+	if !ok || pr == nil {
+		return false
+	}
+	n, err := pr.getNode(index)
+	return err == nil && n != nil
+}
